@@ -69,6 +69,7 @@ def _check_main(run, P):
     run.do(_guardeval, run, P)
     C = P.cls(EC)
     run.do(_post, run, P, C)
+    run.do(_requests_once, run, P, C)
     run.do(_skipsets, run, P, C)
     run.do(_front, run, P, C)
     run.do(_scope, run, P, C)
@@ -132,6 +133,57 @@ def _guardeval(run, P):
            why="a guard value remembered from an earlier statement is stale when a "
                "statement in between changed a variable of the guard: a statement "
                "runs although its guard is false when it is visited")
+
+
+def _requests_once(run, P, C):
+    """What an exec method hands back as "execute these first" may be any iterable (a
+    generator, map(), filter()): between the unpacking and update_plan it is walked at most
+    once - or made a tuple / list first."""
+    call = C.methods.get("__call__")
+    if call is None:
+        raise AnalysisError("ExecutionController.__call__ not found")
+    ups = [x for x in ast.walk(call.node) if isinstance(x, ast.Call) and dotted(x.func) == "self.update_plan"
+           and len(x.args) >= 2 and isinstance(x.args[1], ast.Name)]
+    if not ups:
+        raise AnalysisError("ExecutionController.__call__: update_plan(<phase>, <requests>) not found")
+    v = ups[0].args[1].id
+    units = [(call, v)]
+    # a helper that receives the unpacked result and hands the requests back
+    for x in ast.walk(call.node):
+        if isinstance(x, ast.Assign) and any(v in {n_.id for n_ in ast.walk(t_) if isinstance(n_, ast.Name)}
+                                             for t_ in x.targets) and isinstance(x.value, ast.Call):
+            d = dotted(x.value.func) or ""
+            if d.startswith("self.") and d[5:] in C.methods:
+                h = C.methods[d[5:]]
+                rets = [r.value for r in ast.walk(h.node) if isinstance(r, ast.Return)
+                        and isinstance(r.value, ast.Tuple) and len(r.value.elts) == 2
+                        and isinstance(r.value.elts[1], ast.Name)]
+                for r in rets:
+                    units.append((h, r.elts[1].id))
+    n = 0
+    for fn, name in units:
+        walks, frozen = [], []
+        for x in ast.walk(fn.node):
+            if isinstance(x, (ast.For, ast.comprehension)) and isinstance(x.iter, ast.Name) and x.iter.id == name:
+                walks.append(x)
+            if isinstance(x, ast.Call) and isinstance(x.func, ast.Name) \
+                    and x.func.id in ("sorted", "any", "all", "set", "frozenset", "len", "sum", "max", "min") \
+                    and any(isinstance(a_, ast.Name) and a_.id == name for a_ in x.args):
+                walks.append(x)
+            if isinstance(x, ast.Assign) and any(isinstance(t_, ast.Name) and t_.id == name for t_ in x.targets) \
+                    and isinstance(x.value, ast.Call) and dotted(x.value.func) in ("tuple", "list", "frozenset") \
+                    and len(x.value.args) == 1 and dotted(x.value.args[0]) == name:
+                frozen.append(x)
+        n += 1
+        first_walk = min((getattr(w_, "lineno", None) or w_.iter.lineno for w_ in walks), default=None)
+        ok = not walks or any(fz.lineno < first_walk for fz in frozen)
+        run.ob("C04.post", fn, walks[0] if walks and not isinstance(walks[0], ast.comprehension) else fn.node, ok,
+               construct=f"{fn.name}: the requests ('{name}') are not walked before they reach update_plan "
+                         f"(or are made a tuple first; walks: {len(walks)})",
+               why="a generator is empty after the first walk: the check passes, update_plan gets "
+                   "nothing, and the requested statement is not run before the ones already planned")
+    if n == 0:
+        raise AnalysisError("requests: nothing examined")
 
 
 def _iterative_plan(run, P, up):
